@@ -879,11 +879,35 @@ func c13Filter(p *core.Program, r *core.Report, t *types.Named) {
 // c13Linked: pointer/size consistency of the linked list on every path.
 func c13Linked(p *core.Program, r *core.Report, t *types.Named, rule string) {
 	tn := "util/list." + t.Obj().Name()
-	for _, fi := range p.MethodsOf(t) {
+	// methods of the list, and package functions of its package that take the list as a parameter
+	// (remove() written as unlink(o, x) is the same operation)
+	cands := p.MethodsOf(t)
+	ownerName := map[*core.FuncInfo]string{}
+	for _, fi := range p.Funcs {
+		if fi.Obj.Pkg() != t.Obj().Pkg() || core.RecvNamed(fi.Obj) != nil || fi.Decl.Body == nil || core.IsCanaryFile(p.Fset.Position(fi.Decl.Pos()).Filename) {
+			continue
+		}
+		sig := fi.Obj.Type().(*types.Signature)
+		for i := 0; i < sig.Params().Len(); i++ {
+			pt := sig.Params().At(i).Type()
+			if pp, ok := pt.(*types.Pointer); ok {
+				pt = pp.Elem()
+			}
+			if n, ok := pt.(*types.Named); ok && n.Obj() == t.Obj() && sig.Params().At(i).Name() != "" {
+				ownerName[fi] = sig.Params().At(i).Name()
+				cands = append(cands, fi)
+				break
+			}
+		}
+	}
+	for _, fi := range cands {
 		if fi.Decl.Body == nil {
 			continue
 		}
 		rn := recvName(fi)
+		if on, ok := ownerName[fi]; ok {
+			rn = on
+		}
 		norm := func(e ast.Expr) string { return strings.ReplaceAll(stripSpaces(types.ExprString(e)), rn+".", "") }
 		touches := false
 		ps, over := simplePaths(fi, func(n ast.Node) []paths.Event {
